@@ -25,6 +25,13 @@ bool splinetable<Alloc>::searchcenters(const double* x, int* centers) const
 			continue;
 		} else if (x[i] >= knots[i][naxes[i]]) {
 			centers[i] = naxes[i]-1;
+			/*
+			 * On a repeated knot at the upper end of full support the
+			 * last span has zero width; evaluating there divides 0 by 0.
+			 * Take the nearest span of positive width below instead.
+			 */
+			while (centers[i] > int(order[i]) && x[i] == knots[i][centers[i]])
+				centers[i]--;
 			continue;
 		}
 		
